@@ -17,9 +17,10 @@ class C20(Prop):
             "omitted eligible page has a larger indegree than the last listed. non-trivial = >= 2 eligible pages with "
             "different indegrees and k < #eligible.")
     MODES = ("url",)
-    LONG_BIAS = 0.1
+    LONG_BIAS = 0.2
+    BACKENDS = ("file", "file", "memory")
     WEIGHTS = {"page": 3, "pages": 2, "links": 7, "batch": 5, "again": 2, "create": 3, "delete": 1, "addprefix": 2,
-               "rmprefix": 1, "move": 1, "rule": 1, "unrule": 0, "reopen": 1}
+               "rmprefix": 1, "move": 1, "rule": 1, "unrule": 0, "reopen": 1, "clear": 1}
     QUICK = (40, 20)
     THOROUGH = (200, 40)
     ASSUMPTIONS = ["relational oracle: pages_iter, retrieve_prefix/webentity and get_page_links of the same index define "
